@@ -803,6 +803,17 @@ func runC19Conic(c *Ctx) {
 		eachCallWithNewHelpers(f, func(call ssa.CallInstruction) {
 			if calleeName(call) == "carto.sign" {
 				signed = true
+				// the sign is that of the cone constant: the very value theta is divided by (lambda = lambda0 + theta/n)
+				if call.Parent() == f && len(call.Common().Args) == 1 {
+					arg := resolveCell(call.Common().Args[0])
+					divides := false
+					eachInstr(f, func(in ssa.Instruction) {
+						if bo, ok := in.(*ssa.BinOp); ok && bo.Op == token.QUO && resolveCell(bo.Y) == arg {
+							divides = true
+						}
+					})
+					c.Check(divides, call.Pos(), FuncName(f), "whose sign the radius takes", "the cone constant n, the value theta is divided by", "the radius takes the sign of a value that is not the cone constant (nothing in this Reverse is divided by it): when the standard parallels straddle the equator the first parallel and the cone constant differ in sign, rho gets the wrong sign and the recovered latitude is off by 2|rho|")
+				}
 			}
 		})
 		if p.named.Obj().Name() == "AlbersEqualAreaConic" {
